@@ -35,6 +35,13 @@ class C03(Prop):
                     elif r.chance(1, 10):
                         doc, good, bad = r.choice(G.DOC_WITH_PATHS)
                         cs.append(G.op_match_doc("json", h, t, doc, "string", G.gen_matchers(r, good, bad, "missing")))
+                    elif r.chance(1, 10):
+                        # MatchYAML failing before the comparison: invalid document / failing matcher (the ordinal is consumed)
+                        if r.chance(1, 2):
+                            cs.append(G.op_match_doc("yaml", h, t, r.choice(G.BAD_YAML)))
+                        else:
+                            cs.append(G.op_match_doc("yaml", h, t, b"user:\n  name: n\ntags:\n  - x\n", "string",
+                                                     [{"kind": "any", "paths": ["$.missing"]}]))
                     cs.append(c)
                 prog2.append((t, h, cs))
             execs = r.weighted([(1, 2), (2, 2), (3, 1)])
